@@ -234,3 +234,8 @@ Lemma tempo_dedup_drops_exactly_repeats : forall (p : tempo) l x l2,
   dedup tempo_same ((p :: l) ++ x :: l2) =
   dedup tempo_same (p :: l) ++ (if tempo_same (last l p) x then [] else [x]) ++ drop_rep tempo_same x l2.
 Proof. intros. apply dedup_drops_exactly_repeats. Qed.
+
+Lemma tidy_tsigs_subseq : forall l, subseq (tidy_tsigs l) (sort_by ts_time l).
+Proof. intro l. apply dedup_subseq. Qed.
+Lemma tidy_ksigs_subseq : forall l, subseq (tidy_ksigs l) (sort_by ks_time l).
+Proof. intro l. apply dedup_subseq. Qed.
